@@ -10,14 +10,21 @@ the default passes (public custom-Elaborator API), public io before/after each p
 output is a process that builds the same design and makes ONLY that call, under the DEFAULT elaborator.
 Coq (Corr/C07.v) replays the history through the pass-manager model (Model/C07PassMgr.v) and returns per case
 0 | code + 10*(call+1).
+
+Strengthening round: modules may hold names that flattened bundle ports have to dodge (flavour bits 32/64/128) and may be
+NAMESAKES of other modules (flav >> 8); `ADDX` = add()/setattr variants that re-use names, a refused attempt must leave the
+module unchanged; per bundle-flattening visit the module before / after the body is compared with the flattening-names
+model (Model/C07FlatNames.v); coverage targets are measured from the implementation's reports and fail closed.
 """
 import json, itertools, subprocess
 from concurrent.futures import ThreadPoolExecutor
 from . import core
 from .core import clist, cbool
 
-IMPORTS = "Require Import Hdl21.Base.PyInt Hdl21.Model.C07PassMgr Hdl21.Corr.C03 Hdl21.Corr.C07."
+IMPORTS = ("Require Import Hdl21.Base.PyInt Hdl21.Model.C07PassMgr Hdl21.Model.C07FlatNames Hdl21.Corr.C03 Hdl21.Corr.C07.\n"
+           "From Coq Require Import String.\nOpen Scope string_scope.")
 CALLS = ("E", "E1", "P", "N")
+ADD_VARIANTS = 12      # harness/impl/c07.py:add_variant
 
 
 # ------------------------------------------------------------------------------------------ designs and histories
@@ -34,15 +41,22 @@ def all_designs(nmod, maxkids):
     return [list(t) for t in itertools.product(*per)]
 
 
+HI = (0, 32, 64, 96, 128, 160, 192, 224)      # names that make flattened bundle ports dodge: see harness/impl/c07.py
+
+
 def with_flavours(kidlists, salt):
     """Attach a flavour to every module: bit0 array for the first child, bit1 rotated bundle-connection styles,
-    bit2 wide array data, bit3 NoConn on the bq/q ports of an only child, bit4 no primitive instances.  Deterministic in (design, salt)."""
+    bit2 wide array data, bit3 NoConn on the bq/q ports of an only child, bit4 no primitive instances; bits 5-7 (strengthening
+    round): a scalar port `bp_x`, an internal signal `bq_sub_z`, internal signals `bp_y` and `bp_y_` - names the flattened
+    members of the bundle ports bp / bq have to dodge.  Deterministic in (design, salt)."""
     out = []
     for i, ks in enumerate(kidlists):
         f = (salt * 5 + i * 3 + len(ks)) % 32
         if not ks:
             f &= 18
-        out.append([ks, f])
+        # half of the modules carry colliding names; which ones rotates with the case index
+        hi = HI[(salt // 2 + i * 3) % 8] if (salt + i) % 2 == 0 else 0
+        out.append([ks, f | hi])
     return out
 
 
@@ -90,6 +104,10 @@ def reach(design, tops):
     for t in tops:
         go(t)
     return seen
+
+
+def add_target(op):
+    return op[1] if op[0] == "ADD" else op[1][0]
 
 
 def op_tops(op):
@@ -194,14 +212,31 @@ def c_op(op):
     if k == "NP":
         return f"NewParent {c_nats(a[0])}"
     if k == "ADD":
-        return f"Add {a}"
+        return f"Add {a} 100"
+    if k == "ADDX":
+        return f"Add {a[0]} {a[1]}"
     raise ValueError(k)
+
+
+def c_strs(l):
+    return clist(l, core.cstr)
+
+
+def c_insts(l):
+    return clist(l, lambda i: f"({i[0]}, {c_strs(i[1])})")
+
+
+def c_cmod(pre):
+    """The module as the implementation showed it right before (with bundles) / right after its flattening body."""
+    bundles = clist(pre.get("bundles", []), lambda b: f"CB {core.cstr(b[0])} {cbool(b[1])} {c_strs(b[2])}")
+    return f"(CM {c_strs(pre['ns'])} {c_strs(pre['ports'])} {bundles} {c_insts(pre['insts'])} [])"
 
 
 def c_obs(rec, same, logged=True):
     acc = bool(rec.get("ok")) and rec.get("same", True)
     log = clist(rec.get("frames", []), lambda e: f"({e[0]},{e[1]},{cbool(e[2])})")
-    return f"IObs {cbool(acc)} {cbool(logged)} {log} {same}"
+    flat = clist(rec.get("flat", []), lambda f: f"({f[0]}, {c_cmod(f[2])})")
+    return f"IObs {cbool(acc)} {cbool(logged)} {log} {same} {flat}"
 
 
 def model_kids(spec):
@@ -222,23 +257,39 @@ def c_case(job, out, refs):
             op = ["NP", [model_kids(op[1]), op[1][1]]]
         elif op[0] in ("P", "N"):
             same = 1 if rec.get("ok") and rec["hash"] == refs.get(d[:n], op[0], list(op[1])) else 0
+        elif op[0] in ("ADD", "ADDX"):
+            same = 2 if rec.get("unchanged", True) else 0
         steps.append(f"({c_op(op)}, {c_obs(rec, same, job['log'])})")
     for m, rec in zip(job["final"], out["final"]):
         same = 1 if rec.get("ok") and rec["hash"] == refs.get(d, "P1", m) else 0
         steps.append(f"({c_op(['P1', m])}, {c_obs(rec, same, job['log'])})")
     kl = clist([c_nats(model_kids(x)) for x in job["design"]])
-    return f"({kl}, {clist(steps)})%nat"
+    pre = {}
+    for rec in out["calls"] + out["final"]:
+        for m, before, _after in rec.get("flat", []):
+            pre.setdefault(m, before)
+    inits = clist([c_cmod(pre[m]) if m in pre else "cm_empty" for m in range(len(d))])
+    return f"({kl}, {inits}, {clist(steps)})%nat"
 
 
 # ------------------------------------------------------------------------------------------ evaluation and reporting
+TIMES = {}
+
+
 def evaluate(tag, jobs, refs, mode, chunk=150):
+    import time
+    t0 = time.time()
     refs.need(jobs)
+    t1 = time.time()
     outs = run_jobs(jobs, mode)
+    t2 = time.time()
     crashed = [i for i, o in enumerate(outs) if "crash" in o]
     if crashed:
         raise RuntimeError(f"history process crashed: {outs[crashed[0]]} on {json.dumps(jobs[crashed[0]])}")
     cases = [c_case(j, o, refs) for j, o in zip(jobs, outs)]
+    chunk = max(12, min(chunk, -(-len(cases) // core.NPROC)))       # spread the cases over the cores
     bad = core.coq_eval_cases("C07", tag, IMPORTS, "c07case", cases, "run_cases chk_c07", chunk=chunk)
+    TIMES[tag] = dict(references_s=round(t1 - t0, 1), histories_s=round(t2 - t1, 1), coq_s=round(time.time() - t2, 1))
     return outs, {i: (r % 10, r // 10 - 1) for i, r in bad}
 
 
@@ -259,8 +310,8 @@ def valid_case(job):
     for op in job["ops"]:
         if op[0] == "NP":
             n += 1
-        elif op[0] == "ADD":
-            if op[1] not in done:
+        elif op[0] in ("ADD", "ADDX"):
+            if add_target(op) not in done:
                 return False
         else:
             done |= reach(d[:n], op_tops(op))
@@ -299,13 +350,20 @@ def report(run, stream, jobs, outs, res, refs, mode, limit=2):
             job = shrink(job, refs, mode)
         except Exception as e:
             core.log(f"  (shrink failed: {e})")
-        st = res[i][1]
+        st, out_i = res[i][1], outs[i]
+        if job is not jobs[i]:
+            try:        # the observations of the SHRUNK history
+                o2, r2 = evaluate("shrink", [job], refs, mode)
+                if r2.get(0, (0, -1))[0] == 1:
+                    st, out_i = r2[0][1], o2[0]
+            except Exception as e:
+                core.log(f"  (re-run of the shrunk case failed: {e})")
         allops = job["ops"] + [["P1", m] for m in job["final"]]
         run.violation(case_key(job),
                       f"design {json.dumps(job['design'])}, history {json.dumps(allops)}: a call is refused or its output differs "
-                      "from the output of the same call made first in a fresh process (or add() after elaboration is accepted)",
+                      "from the output of the same call made first in a fresh process (or add() after elaboration is accepted, or a refused add() changed the module)",
                       dict(kind="impl-violates-spec", stream=stream, case=job, failing_call=st, mode=mode,
-                           impl=[{k: v for k, v in c.items() if k in ("ok", "err", "hash")} for c in outs[i]["calls"] + outs[i]["final"]],
+                           impl=[{k: v for k, v in c.items() if k in ("ok", "err", "hash", "unchanged")} for c in out_i["calls"] + out_i["final"]],
                            reproducer=py_repro(job, st), failing_cases=len(v1)))
     if v2 and not v1:
         i = v2[0]
@@ -349,6 +407,31 @@ def corpus():
         # modules without any instance of their own (true leaves), add() after elaboration
         mk_job([[[], 16], [[0, 0], 17], [[], 18]], [["P", [1]], ["ADD", 0], ["ADD", 1], ["E1", 2], ["ADD", 2], ["NP", [[2, 0], 16]], ["N", [3]], ["ADD", 3]]),
     ]
+    # ---- strengthening round (seeded changes C07-B, C07-D and their neighbours)
+    # a child whose flattened bundle ports had to dodge names (scalar port bp_x / internal signals bq_sub_z, bp_y, bp_y_),
+    # flattened by an EARLIER call - alone, exported, in a list, under another parent, netlisted - than a parent
+    # that connects a bundle to that port; shared below two parents; new parents afterwards
+    DB = [[[], 32], [[0], 0], [[1, 0, 0], 0]]
+    DBi = [[[], 64 + 128], [[0], 2], [[1, 0, 0], 32]]
+    DBa = [[[], 32 + 64 + 128 + 16], [[0, 0], 1 + 4], [[0], 8 + 32], [[1, 2, 0], 2 + 64]]
+    jobs += [
+        mk_job(DB, [["E1", 0], ["P", [2]]]),
+        mk_job(DB, [["P", [0]], ["P", [2]]]),
+        mk_job(DB, [["E", [1, 0]], ["P", [2]]]),
+        mk_job(DB, [["N", [1]], ["P", [2]]]),
+        mk_job(DBi, [["E1", 0], ["N", [2]], ["NP", [[0, 2], 34]], ["P", [3]]]),
+        mk_job(DBi, [["N", [1]], ["P", [2, 1]], ["NP", [[0], 8]], ["E1", 3]]),
+        mk_job(DBa, [["E1", 0], ["E1", 2], ["E1", 1], ["P", [3]]]),
+        mk_job(DBa, [["P", [1]], ["N", [2]], ["NP", [[0, 0], 1 + 32]], ["P", [3]], ["N", [4]]]),
+        mk_job(DBa, [["N", [3]], ["NP", [[0, 3], 128]], ["P", [4]]]),
+    ]
+    # refused add() / setattr on elaborated modules that RE-USE a name held by an attribute of another kind, followed
+    # by exporting again and by a new parent of the module
+    DD = [[[], 0], [[0, 0], 0]]
+    for v in range(1, ADD_VARIANTS):
+        t = v % 2
+        jobs.append(mk_job(DD if v % 3 else DBi[:2], [["P", [1]], ["ADDX", [t, v]], ["P", [1]], ["NP", [[t, 0], 2]], ["P", [2]]]))
+    jobs.append(mk_job(DD, [["E1", 1]] + [["ADDX", [v % 2, v]] for v in range(ADD_VARIANTS)] + [["N", [1]], ["NP", [[1, 0], 0]], ["N", [2]]]))
     return jobs
 
 
@@ -365,13 +448,117 @@ def exhaustive(nmod, maxkids, stride=1, offset=0):
     return jobs
 
 
+def dodged_box():
+    """Two modules, the parent instantiating the child once or twice: every set of colliding names in the child x
+    {none, bp_x, bq_sub_z+bp_y} in the parent x every order and grouping of calls; the parent's connection styles rotate."""
+    jobs = []
+    n = 0
+    for ks in ([0], [0, 0]):
+        for hc in HI:
+            for hp in (0, 32, 192):
+                for gi, groups in enumerate(groupings([0, 1])):
+                    n += 1
+                    low = (0, 1, 2, 8, 5, 3)[n % 6]
+                    if len(ks) != 1:
+                        low &= ~8
+                    design = [[[], hc | (n % 2) * 16 | (n // 2 % 2) * 2], [ks, hp | low]]
+                    ops = mk_ops(groups, kinds_for(groups, n))
+                    if n % 4 == 0:
+                        ops += [["NP", [[0, 1][: 1 + n // 4 % 2], hp ^ 32]], ["PN"[n // 8 % 2], [2]]]
+                    jobs.append(mk_job(design, ops))
+    return jobs
+
+
+def refused_add_box():
+    """Every add()/setattr variant on the child and on the parent of the two-module designs, after a call that
+    elaborated the module, followed by exporting again and by a new parent of the module."""
+    jobs = []
+    n = 0
+    for ks in ([0], [0, 0]):
+        for v in range(ADD_VARIANTS):
+            for t in (0, 1):
+                n += 1
+                first = [["P", [1]], ["E1", 1], ["N", [1]], ["E", [t]]][n % 4]
+                design = [[[], (0, 32, 16, 192)[n % 4]], [ks, (0, 2, 1, 8 if len(ks) == 1 else 4)[n // 4 % 4]]]
+                if first[1] == [0] and t == 0:
+                    ops = [first, ["ADDX", [0, v]], ["P", [1]], ["NP", [[0], 0]], ["P", [2]]]
+                else:
+                    ops = [first, ["ADDX", [t, v]], ["PN"[n // 2 % 2], [1]], ["NP", [[t] + ks[1:], 2 * (n % 2)]], ["P", [2]]]
+                jobs.append(mk_job(design, ops))
+    return jobs
+
+
+def co_reached(job):
+    """Pairs of modules that some call of the history (or a final single-module export) reaches together."""
+    d = full_design(job)
+    n = len(job["design"])
+    pairs = set()
+    calls = []
+    for op in job["ops"]:
+        if op[0] == "NP":
+            n += 1
+        elif op[0] in CALLS:
+            calls.append(reach(d[:n], op_tops(op)))
+    calls += [reach(d, [m]) for m in job["final"]]
+    for c in calls:
+        for a in c:
+            for b in c:
+                pairs.add((a, b))
+    return pairs
+
+
+def assign_namesakes(job, r, p=0.5):
+    """Give some NEW modules (created by NP) the NAME of an existing module that no call reaches together with it:
+    two different objects with one name.  Caches keyed by object identity cannot tell; caches keyed by name can."""
+    co = co_reached(job)
+    n = len(job["design"])
+    taken = set()
+    ops = []
+    for op in job["ops"]:
+        if op[0] == "NP":
+            cands = [t for t in range(n) if (n, t) not in co and (t, n) not in co and t not in taken]
+            if cands and r.random() < p:
+                t = r.choice(cands)
+                taken.add(t)
+                taken.add(n)
+                op = ["NP", [list(op[1][0]), (op[1][1] & 255) | ((t + 1) << 8)]]
+            n += 1
+        ops.append(op)
+    return dict(job, ops=ops)
+
+
+def namesake_box():
+    """A leaf 0 (with / without dodged names) below a parent 1; after a call, a NEW leaf with the NAME of module 0 but
+    other colliding names, a new parent of the new leaf, and a new parent of the old leaf; every order of exporting them."""
+    jobs = []
+    n = 0
+    for h0 in (0, 32, 64, 128, 224):
+        for h2 in (0, 32, 192):
+            if h0 == h2:
+                continue
+            for first in (["E1", 0], ["P", [1]], ["N", [1, 0]]):
+                for order in ((3, 4), (4, 3)):
+                    n += 1
+                    leaf2 = ["NP", [[], h2 | (1 << 8) | (n % 2) * 16]]           # module 2: named M0
+                    par2 = ["NP", [[2] * (1 + n % 2), (0, 2, 1)[n % 3]]]          # module 3: parent of the namesake
+                    par0 = ["NP", [[0] * (1 + n // 2 % 2), (0, 2, 8)[n % 3] if n // 2 % 2 == 0 else (0, 2, 1)[n % 3]]]   # module 4
+                    ops = [first, leaf2, par2, par0] + [["PN"[(n + i) % 2], [t]] for i, t in enumerate(order)]
+                    if n % 3 == 0:
+                        ops.insert(2, ["E1", 2])
+                    # both leaves are elaborated by now: each refuses additions
+                    ops += [["ADDX", [2, n % ADD_VARIANTS]], ["ADDX", [0, (n + 5) % ADD_VARIANTS]], ["ADD", 3 + n % 2]]
+                    jobs.append(mk_job([[[], h0], [[0], 0]], ops, final=[1, 3, 4]))
+    return jobs
+
+
 def gen_random(r, nmod, maxkids, p_np=0.4):
     kl = [[]]
     for i in range(1, nmod):
         k = r.randint(0, maxkids) if i < nmod - 1 else r.randint(1, maxkids)
         # mostly connected designs: prefer recent modules as children
         kl.append([r.choice(range(max(0, i - 2), i)) if r.random() < 0.7 else r.randrange(i) for _ in range(k)])
-    design = [[ks, (r.randrange(32) if ks else r.choice([0, 2, 16, 18]))] for ks in kl]
+    hi = lambda: sum(b for b in (32, 64, 128) if r.random() < 0.3)
+    design = [[ks, (r.randrange(32) if ks else r.choice([0, 2, 16, 18])) | hi()] for ks in kl]
     ops = []
     n = nmod
     elaborated = set()
@@ -379,13 +566,14 @@ def gen_random(r, nmod, maxkids, p_np=0.4):
     for _ in range(r.randint(2, 6)):
         u = r.random()
         if u < p_np * 0.5 and n < nmod + 2:
-            k = r.randint(1, maxkids)
-            spec = [[r.randrange(n) for _ in range(k)], r.randrange(32)]
+            k = r.randint(0, maxkids)          # k = 0: a new leaf
+            spec = [[r.randrange(n) for _ in range(k)], (r.randrange(32) if k else r.choice([0, 2, 16, 18])) | hi()]
             ops.append(["NP", spec])
             full.append(spec)
             n += 1
-        elif u < p_np * 0.5 + 0.12 and elaborated:
-            ops.append(["ADD", r.choice(sorted(elaborated))])
+        elif u < p_np * 0.5 + 0.17 and elaborated:
+            m = r.choice(sorted(elaborated))
+            ops.append(["ADD", m] if r.random() < 0.3 else ["ADDX", [m, r.randrange(ADD_VARIANTS)]])
         else:
             k = r.choice(CALLS)
             tops = [r.randrange(n) for _ in range(r.choice([1, 1, 2, 3]))]
@@ -393,7 +581,7 @@ def gen_random(r, nmod, maxkids, p_np=0.4):
                 tops = list(dict.fromkeys(tops))
             ops.append([k, tops[0]] if k == "E1" else [k, tops])
             elaborated |= reach(full, tops[:1] if k == "E1" else tops)
-    return mk_job(design, ops)
+    return assign_namesakes(mk_job(design, ops), r)
 
 
 def malformed(seed, n):
@@ -406,12 +594,72 @@ def malformed(seed, n):
         tops = [r.randrange(len(j["design"]))]
         first = [[r.choice(["E", "P", "N"]), tops + tops]]
         # add() to every module the first call reached; they are all elaborated by then
-        adds = [["ADD", m] for m in sorted(reach(d[:len(j["design"])], tops))]
+        adds = [(["ADD", m] if (k + m) % 3 == 0 else ["ADDX", [m, r.randrange(ADD_VARIANTS)]])
+                for m in sorted(reach(d[:len(j["design"])], tops))]
         rest = list(j["ops"])
         rest.insert(r.randint(0, len(rest)), ["E", []])
         ops = first + adds + rest
         jobs.append(mk_job(j["design"], ops))
     return jobs
+
+
+# ------------------------------------------------------------------------------------------ coverage targets
+TARGETS = (["dodged_child_flattened_by_earlier_call:" + h for h in ("alone", "in_list", "under_parent")] +
+           ["dodged_child_then_new_parent", "name_dodged_for_internal_signal_then_later_parent",
+            "refused_reuse_add_then_reexport", "refused_reuse_add_then_new_parent_export",
+            "namesake_modules_flattened_then_parent_of_one_flattened"] +
+           [f"refused_add_variant_{v}" for v in range(ADD_VARIANTS)])
+
+
+def coverage_of(job, out):
+    """Which of the strengthening-round targets this history meets, MEASURED on what the implementation did: the
+    bundle-flattening visits it reported (module, instances, port names after the body) and the refused add() calls."""
+    hit = set()
+    d = full_design(job)
+    n0 = len(job["design"])
+    ops = job["ops"] + [["P1", m] for m in job["final"]]
+    recs = out["calls"] + out["final"]
+    flat_at, dodged = {}, {}
+    name_of = lambda m: (d[m][1] >> 8) - 1 if d[m][1] >> 8 else m
+    for i, (op, rec) in enumerate(zip(ops, recs)):
+        for m, pre, post in rec.get("flat", []):
+            for c, _conns in pre["insts"]:
+                if c in flat_at and flat_at[c] < i and any(x != c and name_of(x) == name_of(c) and flat_at[x] < i for x in flat_at):
+                    hit.add("namesake_modules_flattened_then_parent_of_one_flattened")
+            for c, _conns in pre["insts"]:
+                if c in flat_at and flat_at[c] < i and dodged.get(c):
+                    tops = op_tops(ops[flat_at[c]]) if ops[flat_at[c]][0] != "P1" else [ops[flat_at[c]][1]]
+                    how = "under_parent" if c not in tops else ("alone" if len(set(tops)) == 1 else "in_list")
+                    hit.add("dodged_child_flattened_by_earlier_call:" + how)
+                    if m >= n0:
+                        hit.add("dodged_child_then_new_parent")
+                    if d[c][1] & (64 | 128):
+                        hit.add("name_dodged_for_internal_signal_then_later_parent")
+            flat_at[m] = i
+            dodged[m] = any(p.endswith("_") for p in post["ports"])
+    n = n0
+    for i, (op, rec) in enumerate(zip(ops, recs)):
+        if op[0] == "NP":
+            n += 1
+        if op[0] == "ADDX" and not rec.get("ok"):
+            m, v = op[1]
+            hit.add(f"refused_add_variant_{v}")
+            if v in (0, 7):
+                continue
+            nn, parents = n, set()
+            for op2, rec2 in zip(ops[i + 1:], recs[i + 1:]):
+                if op2[0] == "NP":
+                    if m in op2[1][0]:
+                        parents.add(nn)
+                    nn += 1
+                elif op2[0] in ("P", "N", "P1"):
+                    tops = [op2[1]] if op2[0] == "P1" else list(op2[1])
+                    below = reach(d[:nn], tops)
+                    if m in below:
+                        hit.add("refused_reuse_add_then_reexport")
+                    if parents & below:
+                        hit.add("refused_reuse_add_then_new_parent_export")
+    return hit
 
 
 # ------------------------------------------------------------------------------------------ run
@@ -443,6 +691,7 @@ def run(run, tier, seed, replay=None):
         run.sample(dict(stream="replay", case=job, verdict=res.get(0, (0, -1))))
         return
 
+    cover = {t: 0 for t in TARGETS}
     rule = "non-trivial = some module is reached by at least two calls of the history (the later call meets cached state); distinct by (design, history)"
     total = 0
 
@@ -454,6 +703,13 @@ def run(run, tier, seed, replay=None):
         run.stream(stream, len(jobs), len({case_key(j) for j in jobs if nontrivial(j)}), calls=ncalls, pass_body_visits=nvis,
                    interpreter=("new python process per history" if mode == "direct" else "child forked after `import hdl21` per history"),
                    rule=rule, **extra)
+        hits = {}
+        for j, o in zip(jobs, outs):
+            for t in coverage_of(j, o):
+                hits[t] = hits.get(t, 0) + 1
+                cover[t] += 1
+        run.coverage["streams"][stream]["strengthening_targets_met"] = hits
+        run.coverage["streams"][stream]["wall"] = TIMES.get(stream.replace("-", "_"))
         report(run, stream, jobs, outs, res, refs, mode)
         total += len(jobs)
         return outs, res
@@ -495,13 +751,33 @@ def run(run, tier, seed, replay=None):
     do("default-elaborator", jobs, "fork", exhaustive=False,
        box="every 37th (quick) / 5th (thorough) case of the 3-module box and the corpus, under the default elaborator (no visit log)")
 
+    # ---------------------------------------------------------------- strengthening round: dodged flat names, re-used names
+    jobs = dodged_box()
+    do("exhaustive-dodged-names-2", jobs, "fork", exhaustive=True,
+       box="two modules, child instantiated once or twice x every subset of the colliding names {scalar port bp_x, internal signal "
+           "bq_sub_z, internal signals bp_y + bp_y_} in the child x {none, bp_x, bq_sub_z + bp_y + bp_y_} in the parent x every order and "
+           "grouping of calls; every 4th case adds a new parent and exports it")
+    run.sample(dict(stream="exhaustive-dodged-names-2", case=jobs[len(jobs) // 3]))
+    jobs = refused_add_box()
+    do("exhaustive-refused-add", jobs, "fork", exhaustive=True, add_variants=ADD_VARIANTS,
+       box="two modules x every add()/setattr variant (new name; signal over port, port over signal, instance over signal / port, "
+           "bundle over port, signal over instance, same kind, over a flattened port / signal, array over signal) x target child / parent, "
+           "after a call that elaborated the target; then export again, create a new parent of the target, export it")
+    run.sample(dict(stream="exhaustive-refused-add", case=jobs[5]))
+
+    jobs = namesake_box()
+    do("exhaustive-namesakes", jobs, "fork", exhaustive=True,
+       box="a leaf below a parent, a call, then a NEW leaf carrying the leaf's NAME (another object, other colliding names), a new "
+           "parent of each; colliding names of the two leaves x first call x order of the exports")
+    run.sample(dict(stream="exhaustive-namesakes", case=jobs[7]))
+
     # ---------------------------------------------------------------- structured random
     n_rand = 150 if quick else 1500
     for nmod in ((4,) if quick else (4, 5)):
         jobs = [gen_random(core.rng(seed, "C07", f"random-{nmod}", k), nmod, 3) for k in range(n_rand)]
         outs, res = do(f"random-{nmod}", jobs, "fork", modules=nmod,
                        with_new_parent=sum(1 for j in jobs if any(o[0] == "NP" for o in j["ops"])),
-                       with_add=sum(1 for j in jobs if any(o[0] == "ADD" for o in j["ops"])), rejected_fraction=0.0,
+                       with_add=sum(1 for j in jobs if any(o[0] in ("ADD", "ADDX") for o in j["ops"])), rejected_fraction=0.0,
                        box="random DAGs (child lists <= 3, mostly recent modules), 2-6 calls with repeated tops, new parents of elaborated "
                            "modules, add() on elaborated modules; every module exported alone at the end")
         run.sample(dict(stream=f"random-{nmod}", case=jobs[1]))
@@ -510,7 +786,12 @@ def run(run, tier, seed, replay=None):
     jobs = malformed(seed, 40 if quick else 400)
     outs, res = do("malformed", jobs, "fork",
                    refused_adds=0, box="add() on every module reached by the first call, empty top list, repeated tops")
-    nref = sum(1 for j, o in zip(jobs, outs) for op, c in zip(j["ops"], o["calls"]) if op[0] == "ADD" and not c["ok"])
+    nref = sum(1 for j, o in zip(jobs, outs) for op, c in zip(j["ops"], o["calls"]) if op[0] in ("ADD", "ADDX") and not c["ok"])
     run.coverage["streams"]["malformed"]["refused_adds"] = nref
     run.sample(dict(stream="malformed", case=jobs[0]))
     run.coverage["traces_validated_against_impl"] = total
+    run.coverage["strengthening_targets"] = cover
+    for t, cnt in cover.items():
+        if cnt == 0:
+            run.violation(f"C07:coverage:{t}", f"generator coverage target missed: no history with {t}", dict(kind="coverage"),
+                          found_input=False)
